@@ -81,23 +81,27 @@ Theorem C19_draw_rows_bounded : forall (W H : N) (ls : list line) (n : N) (below
 Proof. exact draw_rows_bounded. Qed.
 Print Assumptions C19_draw_rows_bounded.
 
-(** (c) over every history of the single bar, without any proviso: after every op
-    last_line_count = rows of the maximal fitting prefix of the last painted frame <= H *)
-Theorem C19_rows_bounded : forall (W H : N) (s0 : sys) (t0 : term) (h : list (N * op)),
+(** (c) over every history of the single bar in the C01 alphabet outside the situation [hist_ok]
+    excludes (open finding D28; no Fits, no NoTextCut needed): after every op
+    last_line_count = rows of the maximal fitting prefix of the last painted frame <= H.
+    [_partial]: single bar, C01 alphabet, [hist_ok], no I/O failures. *)
+Theorem C19_rows_bounded_partial : forall (W H : N) (s0 : sys) (t0 : term) (h : list (N * op)),
   sb_initial s0 -> hist_ok W H s0 (ghost_for t0) h ->
   let st := sb_run W H (s0, ghost_for t0, t0) h in
   exists b tg, s_bars (fst (fst st)) = [b] /\ b_target b = TTerm tg
     /\ tt_n tg = bar_rows (fitting_prefix W H (g_frame (snd (fst st)))) W
     /\ tt_n tg <= H.
 Proof. exact c19_rows_bounded. Qed.
-Print Assumptions C19_rows_bounded.
+Print Assumptions C19_rows_bounded_partial.
 
-(** (d) erase exactness WITHOUT the Fits proviso, for every W >= 1, H >= 1: after every history
-    outside the narrow class [NoTextCut] excludes, the terminal shows exactly
+(** (d) erase exactness WITHOUT the Fits proviso, for every W >= 1, H >= 1: after every single-bar
+    history from a [ready] start outside the TWO refuted classes - [NoTextCut] (open finding D14,
+    C19_text_cut_refuted) and [hist_ok] (open finding D28, C01_empty_line_swallowed_refuted) - the
+    terminal shows exactly
         pre ++ wrap W log ++ wrap W (maximal fitting prefix of the frame)
     i.e. every earlier frame (wrapped, taller than the terminal, cut by the height `break`) has
     been blanked completely by the next draw and nothing above it was touched. *)
-Theorem C19_erase_exact :
+Theorem C19_erase_exact_partial :
   forall (W H : N) (pre : list (list N)) (s0 : sys) (t0 : term) (h : list (N * op)),
   1 <= W -> 1 <= H ->
   sb_initial s0 -> ready (N.to_nat W) (N.to_nat H) pre t0 -> hist_ok W H s0 (ghost_for t0) h -> NoTextCut W H s0 h ->
@@ -106,7 +110,7 @@ Theorem C19_erase_exact :
   exists k, screen (N.to_nat W) t
             = map (pad (N.to_nat W)) (expected_rows_cut W H pre g) ++ repeat (repeat SP (N.to_nat W)) k.
 Proof. intros W H pre s0 t0 h HW HH. exact (c19_erase_exact W H HW HH pre s0 t0 h). Qed.
-Print Assumptions C19_erase_exact.
+Print Assumptions C19_erase_exact_partial.
 
 (** the clear loop itself, from the end of the last of the n rows F at ANY column, n - 1 rows
     within reach: exactly F is blanked, the rows C above are untouched *)
@@ -167,7 +171,7 @@ Theorem C19_D17_reaped_behind_cut_witness :
 Proof. vm_compute. repeat split; discriminate. Qed.
 Print Assumptions C19_D17_reaped_behind_cut_witness.
 
-(** Regression statement for the defect fixed by 7d42cff "the redrawn region is never taller than the
+(** Regression INSTANCE (one computed history, the behaviour AFTER the fix) for the defect fixed by 7d42cff "the redrawn region is never taller than the
     terminal" (audit 2, N1; harness class 'bottom-region-taller-than-terminal-scrolls'): 5x3 terminal,
     Bottom alignment; a, b, c drawn, finished visibly and dropped (three kept rows); d added and drawn;
     clear(); d.tick(); clear(); d.tick().  BEFORE the fix clear() added the 3 kept rows to the count
@@ -186,7 +190,7 @@ Definition n1_case : syscase :=
      (14000000000, OInsert BEnd 3); (15000000000, OTick 3); (16000000000, OMClear); (17000000000, OTick 3);
      (18000000000, OMClear); (19000000000, OTick 3)] [].
 
-Theorem C19_bottom_count_capped_pre_7d42cff :
+Example C19_bottom_count_capped_after_7d42cff_witness :
   let counts := map (fun k => target_n (ms_target (s_mp (fst (run_sys 5 3 (case_init n1_case)
                                                            (firstn k (c_ops n1_case)))))))
                     [15; 16; 17; 18; 19]%nat in
@@ -196,7 +200,6 @@ Theorem C19_bottom_count_capped_pre_7d42cff :
   counts = [1; 3; 3; 3; 3]                       (* last_line_count after ops 15..19: never above H = 3 *)
   /\ tops = [0; 1; 1; 1; 1; 1]%nat.              (* first visible row: no scrolling after d's first draw *)
 Proof. vm_compute. split; reflexivity. Qed.
-Print Assumptions C19_bottom_count_capped_pre_7d42cff.
 
 (** hypotheses are satisfiable by a non-trivial history: a 2x3 terminal, a three-line template
     whose frame (1 + 2 + 1 = 4 rows) is taller than the terminal: only the leading lines are
@@ -297,7 +300,7 @@ Print Assumptions C19_draw_rows_bounded_bottom.
       row |C|, the top of the region - the whole region stays within reach of the next draw;
     - otherwise the cursor is wrap-pending at the right edge of the last row;
     - [ready] again (the next draw starts from the same kind of state) with the reach bookkeeping *)
-Theorem C19_bottom_draw_exact :
+Theorem C19_bottom_draw_exact_partial :
   forall (W H : N) (C F : list (list N)) (t : term) (ls : list line) (n : N) (below : bool),
   1 <= W -> 1 <= H ->
   ready (N.to_nat W) (N.to_nat H) (C ++ F) t -> List.length F = N.to_nat n ->
@@ -329,41 +332,25 @@ Theorem C19_bottom_draw_exact :
           ++ wrap (N.to_nat W) (map lt (from_bar ls)))
   /\ List.length R = N.to_nat (visual_line_count ls W + (if bottom_padded ls then sh else 0)).
 Proof. exact draw_to_term_spec_bottom_full. Qed.
-Print Assumptions C19_bottom_draw_exact.
+Print Assumptions C19_bottom_draw_exact_partial.
 
 (** (c) for MultiProgress: along EVERY history of the system model (any bars, members or not, any
     calls - valid in the sense of MultiSpec.hist_ok or not -, any alignment and any alignment changes,
     no I/O failures), after every call the last_line_count of the multi draw target is at most H:
     the managed region never exceeds the terminal height (since fix 7d42cff also under Bottom
     alignment: no padding ghost any more; before it the bound was false, see
-    C19_bottom_count_capped_pre_7d42cff) *)
-Theorem C19_multi_rows_bounded : forall (W H : N) (s : sys) (ops : list (N * op)),
+    C19_bottom_count_capped_after_7d42cff_witness) *)
+Theorem C19_multi_rows_bounded_partial : forall (W H : N) (s : sys) (ops : list (N * op)),
   target_n (ms_target (s_mp s)) <= H ->
   target_n (ms_target (s_mp (MultiSpec.run W H nofail s ops))) <= H.
 Proof. intros W H s ops. exact (multi_rows_le_H W H ops s). Qed.
-Print Assumptions C19_multi_rows_bounded.
+Print Assumptions C19_multi_rows_bounded_partial.
 
-(** the older form with the padding ghost [hist_shift] (TermBottomMulti.v) still holds and is kept
-    for the statements that speak about the counted padding *)
-Theorem C19_multi_rows_bounded_ghost : forall (W H : N) (s : sys) (ops : list (N * op)),
-  target_n (ms_target (s_mp s)) <= H ->
-  let s' := MultiSpec.run W H nofail s ops in
-  target_n (ms_target (s_mp s')) <= H + hist_shift W H s ops 0
-  /\ (TopAl (s_mp s) -> Forall (fun x => snd x <> OSetAlign Bottom) ops ->
-      target_n (ms_target (s_mp s')) <= H).
-Proof. intros W H s ops. exact (multi_rows_bounded_full W H ops s). Qed.
-Print Assumptions C19_multi_rows_bounded_ghost.
-
-(** the ghost advances call by call by [op_shift] = the fold of [act_shift] over the MultiState
-    method calls of the public call (MultiSpec.op_actions, C02_step_calls) *)
-Theorem C19_multi_shift_ghost : forall (W H : N) (s : sys) (ops : list (N * op)) (sh now : N) (o : op),
-  hist_shift W H s (ops ++ [(now, o)]) sh
-  = op_shift W H (MultiSpec.run W H nofail s ops) now o (hist_shift W H s ops sh).
-Proof. intros W H s ops sh now o. exact (hist_shift_snoc W H ops s sh now o). Qed.
-Print Assumptions C19_multi_shift_ghost.
+(** (the older form of this bound with a padding ghost, `<= H + hist_shift`, said nothing beyond `<= H`
+    and is no longer exported; the ghost machinery stays in proofs/TermBottomMulti.v, unused here) *)
 
 (* ------------------------------------------------------------------ non-vacuity: Bottom alignment *)
-(** the hypotheses of C19_bottom_draw_exact hold for a non-trivial state: 4x3 terminal, the frame
+(** the hypotheses of C19_bottom_draw_exact_partial hold for a non-trivial state: 4x3 terminal, the frame
     AAAA / BBBB on the screen, cursor wrap-pending on its last row; the new frame is the single
     Bar line B: one blank row, then B *)
 Example C19_bottom_draw_exact_nonvacuous :
@@ -378,7 +365,7 @@ Proof.
   vm_compute. repeat split; try lia; discriminate.
 Qed.
 
-(** ... and the branch n >= H of C19_bottom_draw_exact: 5x3 terminal filled by the frame
+(** ... and the branch n >= H of C19_bottom_draw_exact_partial: 5x3 terminal filled by the frame
     AAAAA / BBBBB / CCCCC, an empty vector: three blank rows, cursor on the last of them, flag false,
     nothing scrolled *)
 Example C19_bottom_draw_exact_full_height_nonvacuous :
@@ -419,9 +406,7 @@ Example C19_bottom_println_witness :
   /\ screen_after bottom_println_case 9 = [[]; []; pad 40 (t "C")]
   /\ screen_after bottom_println_case 10 = [t "x"; []; pad 40 (t "C")]
   /\ screen_after bottom_println_case 11 = [t "x"; []; pad 40 (t "C")]
-  /\ map (count_after bottom_println_case) [7; 8; 9; 10; 11]%nat = [3; 3; 3; 2; 2]
-  /\ map (fun k => hist_shift 40 10 (case_init bottom_println_case)
-                     (firstn k (c_ops bottom_println_case)) 0) [7; 8; 9; 10; 11]%nat = [0; 1; 2; 1; 1].
+  /\ map (count_after bottom_println_case) [7; 8; 9; 10; 11]%nat = [3; 3; 3; 2; 2].
 Proof. vm_compute. repeat split. Qed.
 
 (** the witness of the defect fixed by 8b11f76: Bottom; add a, b; tick each; both finish_and_clear
@@ -447,7 +432,7 @@ Example C19_bottom_empty_frame_witness :
                | TTerm tg => tg | _ => new_ttarget None 0 end) = true.
 Proof. vm_compute. repeat split. Qed.
 
-(** the witness of the defect fixed by 881c313 (found by C19_bottom_draw_exact's reach bookkeeping):
+(** the witness of the defect fixed by 881c313 (found by C19_bottom_draw_exact_partial's reach bookkeeping):
     5x3 terminal; Bottom; add a, b, c; tick each (the region fills the screen); clear() three times;
     a.tick().  Each clear pads with H - 1 lines only and leaves the cursor on the last row of the region
     (cursor_below = false): nothing scrolls (first visible row 0 throughout), the rows ever
@@ -474,18 +459,13 @@ Example C19_bottom_full_height_witness :
      = [TUp 2; TClear; TDown 1; TClear; TDown 1; TClear; TUp 2; TLine []; TLine []; TFlush].
 Proof. vm_compute. repeat split. Qed.
 
-(** C19_multi_rows_bounded is not vacuous: both witness histories start from last_line_count = 0,
-    the first one is under Bottom alignment (ghost 1 at the end, count 2 <= 10 + 1), and a Top
-    history satisfies the hypotheses of the second clause *)
+(** C19_multi_rows_bounded_partial is not vacuous: the witness history (Bottom alignment, padding on the
+    screen) starts from last_line_count = 0 <= 10 and ends with a positive count *)
 Example C19_multi_rows_bounded_nonvacuous :
   target_n (ms_target (s_mp (case_init bottom_println_case))) <= 10
-  /\ TopAl (s_mp (case_init bottom_println_case))
-  /\ Forall (fun x => snd x <> OSetAlign Bottom) (skipn 1 (c_ops bottom_println_case)).
-Proof.
-  split; [vm_compute; discriminate|]. split.
-  - split; [reflexivity|]. intros tg E. vm_compute in E. injection E as <-. reflexivity.
-  - vm_compute. repeat constructor; discriminate.
-Qed.
+  /\ target_n (ms_target (s_mp (MultiSpec.run 40 10 nofail (case_init bottom_println_case)
+                                  (c_ops bottom_println_case)))) = 2.
+Proof. split; [vm_compute; discriminate|vm_compute; reflexivity]. Qed.
 
 (** (d) at the level of the row COUNTERS, for MultiProgress WITHOUT the Fits proviso - partial (name):
     Top alignment, no dropped bars (no zombie rows), no I/O failures, every other call allowed
